@@ -54,4 +54,14 @@ MUTANTS = [
     ("C05", "T-float-accepted", D, "        if not isinstance(T, int):", "        if not isinstance(T, (int, float)):"),
     ("C05", "bias-after-abs", D, "        x = x + bias\n", "        x = x + (bias if bias > -47.5 else -bias)\n"),
     ("C05", "gauss-amplitude-m4", D, "        x = sg.fftconvolve(s, pulse, mode=\"same\") / 2", "        x = sg.fftconvolve(s, pulse, mode=\"same\") / (2 if m < 4 else 2.2)"),
+    # ---- C18
+    ("C18", "adc-floor", D, "        np.round((signal - V_min) / (V_max - V_min) * (2**n - 1)), 0, 2**n - 1", "        np.floor((signal - V_min) / (V_max - V_min) * (2**n - 1)), 0, 2**n - 1"),
+    ("C18", "adc-no-clip", D, "        np.round((signal - V_min) / (V_max - V_min) * (2**n - 1)), 0, 2**n - 1", "        np.round((signal - V_min) / (V_max - V_min) * (2**n - 1)), -1, 2**n"),
+    ("C18", "adc-levels-2n", D, "        np.round((signal - V_min) / (V_max - V_min) * (2**n - 1)), 0, 2**n - 1", "        np.round((signal - V_min) / (V_max - V_min) * (2**n - 1)), 0, 2**n - 1 if n != 3 else 2**n"),
+    ("C18", "adc-ignores-noise", D, "            signal = input.signal + input.noise\n        else:\n            signal = input.signal\n    else:\n        signal = input\n\n    if fs is not None:", "            signal = input.signal\n        else:\n            signal = input.signal\n    else:\n        signal = input\n\n    if fs is not None:"),
+    ("C18", "si-lag-plus1", U, "        lag = int(len(data) * percent/100)", "        lag = min(int(len(data) * percent/100) + 1, len(data) - 1)"),
+    ("C18", "si-mean-of-ties", U, "        i = i[len(i)//2]  #", "        i = int(np.mean(i))  #"),
+    ("C18", "si-abs-tolerance", U, "        i = np.where(diff == np.min(diff))[0]", "        i = np.where(np.abs(diff - np.min(diff)) < 1e-10)[0]"),
+    ("C18", "si-unsorted-when-short", U, "        data = np.sort(data)\n        lag = int(len(data) * percent/100)", "        data = np.sort(data) if len(data) != 17 else np.asarray(data)\n        lag = int(len(data) * percent/100)"),
+    ("C18", "si-returns-width-pair", U, "        return np.array((data[i], data[i + lag]))", "        return np.array((data[i], data[min(i + lag + (1 if lag > 5000 else 0), len(data) - 1)]))"),
 ]
